@@ -19,7 +19,7 @@ theorem foldl_mergeStep (l : List Rat) (n : Nat) (a : Rat) (h : 0 < n + l.length
     simp [hn]
   | cons x xs ih =>
     have hpos : 0 < (n + 1) + xs.length := by omega
-    simp only [List.foldl_cons, mergeStep]
+    simp only [List.foldl_cons, mergeStep, Gen.Stat.mergeExpr]
     rw [ih (n + 1) _ hpos]
     have hn1 : ((n : Rat) + 1) ≠ 0 := by positivity
     have hlen : (n + 1 + xs.length : Nat) = n + (x :: xs).length := by simp; omega
@@ -41,12 +41,34 @@ theorem foldl_avgStep (l : List Rat) (n : Nat) (a : Rat) (h : 0 < n + l.length) 
     simp [hn]
   | cons x xs ih =>
     have hpos : 0 < (n + 1) + xs.length := by omega
-    simp only [List.foldl_cons, avgStep]
+    simp only [List.foldl_cons, avgStep, Gen.Stat.avgExpr]
     rw [ih (n + 1) _ hpos]
     have hn1 : ((n : Rat) + 1) ≠ 0 := by positivity
     have hlen : (n + 1 + xs.length : Nat) = n + (x :: xs).length := by simp; omega
     refine Prod.ext (by simp; omega) ?_
     simp only [hlen, List.sum_cons]
+    congr 1
+    push_cast
+    field_simp
+    ring
+
+/-- the `DoCorrelations` recurrence started from `n` frames with average `m` -/
+theorem foldl_corrStep (l : List (Rat × Rat)) (n : Nat) (m : Rat) (h : 0 < n + l.length) :
+    l.foldl corrStep (n, m) = (n + l.length, ((n : Rat) * m + (l.map fun ab => ab.1 * ab.2).sum) / ((n + l.length : Nat) : Rat)) := by
+  induction l generalizing n m with
+  | nil =>
+    have hn : (n : Rat) ≠ 0 := by
+      have : 0 < n := by simpa using h
+      exact_mod_cast this.ne'
+    simp [hn]
+  | cons x xs ih =>
+    have hpos : 0 < (n + 1) + xs.length := by omega
+    simp only [List.foldl_cons, corrStep, Gen.Stat.corrExpr]
+    rw [ih (n + 1) _ hpos]
+    have hn1 : ((n : Rat) + 1) ≠ 0 := by positivity
+    have hlen : (n + 1 + xs.length : Nat) = n + (x :: xs).length := by simp; omega
+    refine Prod.ext (by simp; omega) ?_
+    simp only [hlen, List.map_cons, List.sum_cons]
     congr 1
     push_cast
     field_simp
